@@ -608,6 +608,12 @@ func RunReg(p *plan.Plan) *plan.Result {
 		st["ops"]++
 		st["op_"+step.Op]++
 		traps := a.C.Traps
+		for _, o := range []Outcome{want, got} {
+			if o.Self != "" {
+				addViol(plan.Violation{Property: "C06", Class: "C06/argument-modified/" + step.Op, Key: "argument", Step: si,
+					Detail: fmt.Sprintf("step %d %s: %s", si, step.Op, o.Self)})
+			}
+		}
 		if got.Hang {
 			addViol(plan.Violation{Property: prop, Class: prop + "/hang/" + step.Op, Key: pat + "/" + prior, Step: si,
 				Detail: fmt.Sprintf("step %d %s (%s, prior destination %s): in-place call exceeded the step budget (clean-room call took %d steps)", si, step.Op, pat, prior, n0)})
